@@ -27,17 +27,18 @@ Definition table_write (mem : disk) (a : Z) (data : list byte) : disk :=
 
 Record rank_state := mkrs { rs_nb : nbstate; rs_slots : list (Z * Z) }.   (* slot -> stored request id *)
 (* the tag of a request (reported in the completion events) is the script line that posted it *)
-Record world := mkw { w_ranks : list rank_state; w_file : disk; w_hint : swaphint; w_fmt : Z; w_lo : Z; w_map : fmap }.
+Record world := mkw { w_ranks : list rank_state; w_file : disk; w_hint : swaphint; w_fmt : Z; w_lo : Z; w_map : fmap;
+                      w_fx : bool (* variant of extract_reqs found in the sources as built *) }.
 
-Definition init_world (np : Z) (h : swaphint) (fmt lo : Z) : world :=
-  mkw (map (fun _ => mkrs init_state []) (zrange 0 np)) (map_disk lo (PositiveMap.empty byte)) h fmt lo (PositiveMap.empty byte).
+Definition init_world (fx : bool) (np : Z) (h : swaphint) (fmt lo : Z) : world :=
+  mkw (map (fun _ => mkrs init_state []) (zrange 0 np)) (map_disk lo (PositiveMap.empty byte)) h fmt lo (PositiveMap.empty byte) fx.
 
 Definition get_rank (w : world) (r : Z) : rank_state := znth (w_ranks w) r (mkrs init_state []).
 Definition set_rank (w : world) (r : Z) (rs : rank_state) : world :=
-  mkw (zupd (w_ranks w) r rs) (w_file w) (w_hint w) (w_fmt w) (w_lo w) (w_map w).
+  mkw (zupd (w_ranks w) r rs) (w_file w) (w_hint w) (w_fmt w) (w_lo w) (w_map w) (w_fx w).
 Definition set_file (w : world) (f : disk) (positions : list Z) : world :=
   let m := retabulate (w_lo w) (w_map w) f positions in
-  mkw (w_ranks w) (map_disk (w_lo w) m) (w_hint w) (w_fmt w) (w_lo w) m.
+  mkw (w_ranks w) (map_disk (w_lo w) m) (w_hint w) (w_fmt w) (w_lo w) m (w_fx w).
 (* every file byte a pending put request of the process addresses *)
 Definition put_positions (st : nbstate) : list Z := flat_map (fun l => map fst (lead_pairs l)) (put_lead st).
 
@@ -153,7 +154,7 @@ Definition step (w : world) (o : op) : world * list (list Z) :=
         let ranks := map (fun a => fst (fst a)) args in
         let rss := map (get_rank w) ranks in
         let was := map (fun p => mk_args (fst p) (snd (fst (snd p))) (snd (snd p))) (zip rss args) in
-        let '(res, file') := wait_coll_x (map rs_nb rss) was (w_file w) in
+        let '(res, file') := wait_coll_x (w_fx w) (map rs_nb rss) was (w_file w) in
         let w1 := fold_left (fun w q =>
                      let '(a, rs, r) := q in
                      set_rank w (fst (fst a)) (mkrs (wr_st r) (write_back (rs_slots rs) (snd a) (wr_ids r))))
@@ -168,7 +169,7 @@ Definition step (w : world) (o : op) : world * list (list Z) :=
             let rs := get_rank w rank in
             if n =? 0 then (w, [[2; ln; rank; NC_NOERR; 0]])
             else
-              let '(r, file') := wait_one_x (rs_nb rs) (mk_args rs n toks) (w_file w) in
+              let '(r, file') := wait_one_x (w_fx w) (rs_nb rs) (mk_args rs n toks) (w_file w) in
               (set_file (set_rank w rank (mkrs (wr_st r) (write_back (rs_slots rs) toks (wr_ids r)))) file' (put_positions (rs_nb rs)),
                wait_row 2 ln rank n r :: ev_rows ln rank (st_mem (wr_st r)) (wr_ev r))
         | [] => (w, [])
@@ -204,7 +205,7 @@ Definition step (w : world) (o : op) : world * list (list Z) :=
       let mx := fold_left Z.max (map (fun rs => st_numrecs (rs_nb rs)) (w_ranks w)) nr in
       let ranks' := if coll then map (fun rs => mkrs (set_numrecs (rs_nb rs) (if g_isrec g then mx else st_numrecs (rs_nb rs))) (rs_slots rs)) (w_ranks w)
                     else zupd (w_ranks w) rank (let rs := get_rank w rank in mkrs (set_numrecs (rs_nb rs) (Z.max (st_numrecs (rs_nb rs)) nr)) (rs_slots rs)) in
-      (mkw ranks' (map_disk (w_lo w) m) (w_hint w) (w_fmt w) (w_lo w) m, [])
+      (mkw ranks' (map_disk (w_lo w) m) (w_hint w) (w_fmt w) (w_lo w) m (w_fx w), [])
   | OGet ln rank g start count stride =>
       let e := match g_shape g with
                | [] => NC_NOERR
@@ -214,10 +215,10 @@ Definition step (w : world) (o : op) : world * list (list Z) :=
       (w, [[10; ln; rank; e] ++ (if e =? NC_NOERR then dk_gather (w_file w) (g_xsz g) (spec_offsets g start count stride) else [])])
   | OSync ln =>
       let m := fold_left Z.max (map (fun rs => st_numrecs (rs_nb rs)) (w_ranks w)) 0 in
-      (mkw (map (fun rs => mkrs (set_numrecs (rs_nb rs) m) (rs_slots rs)) (w_ranks w)) (w_file w) (w_hint w) (w_fmt w) (w_lo w) (w_map w), [])
+      (mkw (map (fun rs => mkrs (set_numrecs (rs_nb rs) m) (rs_slots rs)) (w_ranks w)) (w_file w) (w_hint w) (w_fmt w) (w_lo w) (w_map w) (w_fx w), [])
   | OClose ln =>
       let res := map (fun rs => close_pending (rs_nb rs)) (w_ranks w) in
-      (mkw (map (fun p => mkrs (wr_st (snd p)) (rs_slots (fst p))) (zip (w_ranks w) res)) (w_file w) (w_hint w) (w_fmt w) (w_lo w) (w_map w),
+      (mkw (map (fun p => mkrs (wr_st (snd p)) (rs_slots (fst p))) (zip (w_ranks w) res)) (w_file w) (w_hint w) (w_fmt w) (w_lo w) (w_map w) (w_fx w),
        flat_map (fun p => let '(rank, r) := p in [8; ln; rank; wr_rc r] :: ev_rows ln rank (st_mem (wr_st r)) (wr_ev r))
                 (zip (zrange 0 (Zlen res)) res))
   | OSnap ln lo hi => (w, [[11; ln; lo] ++ dk_read (w_file w) lo (hi - lo)])
